@@ -2,16 +2,53 @@
 use crate::common::Ctx;
 
 pub mod util;
+pub mod c01;
+pub mod c02;
+pub mod c03;
+#[cfg(feature = "full")]
+pub mod c04;
+#[cfg(feature = "full")]
+pub mod c06;
+pub mod c08;
+pub mod c09;
+pub mod certify;
 pub mod c05;
+pub mod c10;
+#[cfg(feature = "full")]
+pub mod c11;
 pub mod c13;
 pub mod c14;
+pub mod c15;
+#[cfg(feature = "full")]
+pub mod c16;
+#[cfg(feature = "full")]
+pub mod c16walk;
+pub mod c18;
 pub mod c19;
+#[cfg(feature = "full")]
+pub mod kern;
 
 pub fn run(ctx: &Ctx) -> Option<i32> {
     Some(match ctx.args.prop.as_str() {
+        "C01" => c01::run(ctx),
+        "C02" => c02::run(ctx),
+        #[cfg(feature = "full")]
+        "C04" => c04::run(ctx),
+        #[cfg(feature = "full")]
+        "C06" => c06::run(ctx),
+        "C03" => c03::run(ctx),
         "C05" => c05::run(ctx),
+        "C08" => c08::run(ctx),
+        "C09" => c09::run(ctx),
+        "C10" => c10::run(ctx),
+        #[cfg(feature = "full")]
+        "C11" => c11::run(ctx),
         "C13" => c13::run(ctx),
         "C14" => c14::run(ctx),
+        "C15" => c15::run(ctx),
+        #[cfg(feature = "full")]
+        "C16" => c16::run(ctx),
+        "C18" => c18::run(ctx),
         "C19" => c19::run(ctx),
         _ => return None,
     })
